@@ -579,10 +579,12 @@ func (f *fixture) confirm() []confirmRes {
 	// distinct outpoint, outputs between 1x and kx the referenced value
 	for _, sh := range inputShapes() {
 		k := int64(len(sh.Ins))
+		seen := map[int64]bool{}
 		for _, total := range []int64{900, 1000*k - 1100, 1000*k - 100} {
-			if total <= 0 {
+			if total <= 0 || seen[total] {
 				continue
 			}
+			seen[total] = true
 			vectors = append(vectors, vec{fmt.Sprintf("inputs %s, %d out", sh.Name, total), []int64{total}, sh.Ins})
 		}
 	}
@@ -808,9 +810,12 @@ func main() {
 		"input_multisets_baseline":       x.NInSetsBase,
 		"tx_types":                       len(x.PerType),
 		"per_type[passing output sets, fee evaluations, accepted]": x.PerType,
-		"harness_panics":     pan,
-		"light_node_confirm": x.Confirm,
-		"samples":            samples,
+		"harness_panics":                       pan,
+		"input_shape_evaluations":              x.ShapeEvals,
+		"input_shape_accepted":                 x.ShapeAccepted,
+		"light_node_confirm":                   x.Confirm,
+		"light_node_confirm_activate_producer": aps,
+		"samples":                              samples,
 	})
 }
 
@@ -824,6 +829,9 @@ func judgeAP(r *evid.Run, aps []apRes) {
 				evid.Fatalf("C01 ActivateProducer fixture: the control transaction is not accepted: %+v", a)
 			}
 		case !a.Accepted:
+		case a.Inputs > a.Distinct && m.Sum.IsInt64():
+			r.Violate("C01|value-created|outpoint-counted-twice|ActivateProducer",
+				fmt.Sprintf("an inactive producer's signed ActivateProducer (%s) listing %d inputs over %d distinct %d-sela output(s) with outputs %v passes the complete SanityCheck and ContextCheck", a.Name, a.Inputs, a.Distinct, 1000, a.Outputs), art)
 		case m.HasNeg:
 			r.Violate("C01|negative-output-accepted|ActivateProducer",
 				fmt.Sprintf("an inactive producer's signed ActivateProducer spending one %d-sela output with outputs %v passes the complete SanityCheck and ContextCheck", a.Input, a.Outputs), art)
